@@ -44,47 +44,119 @@ func ruleVerifyWindow(c *RC) *RuleResult {
 	// ... on EVERY completing path, whatever the node's role: a watch-only validator does not answer the proposal, but it
 	// processes the pre-block and the block like everybody else and counts what is parked in its tables
 	if rec != nil {
-		root := c.phaseRoot(rec)
 		at := fAllTx().Atom
+		// the functions in which a proposal can become complete: the recorder, and whoever else stores a transaction of
+		// the proposal (a re-query of the pool), with their callers — the proposal's own builder excepted
+		var roots []*FuncInfo
+		seenRoot := map[*FuncInfo]bool{}
+		addRoot := func(f *FuncInfo) {
+			if f != nil && !seenRoot[f] {
+				seenRoot[f] = true
+				roots = append(roots, f)
+			}
+		}
+		addRoot(c.phaseRoot(rec))
+		builders := map[*FuncInfo]bool{}
+		for _, f := range c.senderOf("PrepareRequestType") {
+			builders[f] = true
+			builders[c.phaseRoot(f)] = true
+		}
+		for _, ws := range c.writesTo("ctx.Transactions") {
+			elem := false
+			for _, sn := range ws.Snaps {
+				if sn.Idx != nil {
+					elem = true
+				}
+			}
+			if !elem || c.inEpoch(ws.Fn) {
+				continue
+			}
+			w := c.phaseRoot(ws.Fn)
+			onlyB := func(f *FuncInfo) bool {
+				if builders[f] {
+					return true
+				}
+				cs := c.A.callers[f]
+				if len(cs) == 0 {
+					return false
+				}
+				for _, s := range cs {
+					if !builders[s.Fn] && !builders[c.phaseRoot(s.Fn)] {
+						return false
+					}
+				}
+				return true
+			}
+			if onlyB(w) {
+				continue
+			}
+			addRoot(w)
+			for _, cs := range c.A.callers[w] {
+				if g := c.phaseRoot(cs.Fn); !onlyB(g) {
+					addRoot(g)
+				}
+			}
+		}
 		for fn, table := range vr {
 			if !completes[table] {
 				continue
 			}
-			r.Sites++
-			bad := ""
-			for _, e := range c.exitsOf(root) {
-				if v, known := e.F.value(at); !known || !v {
-					continue
-				}
-				if e.Killed["ctx.Transactions"] == 0 || e.Events["fn:"+fn.Name] {
-					continue
-				}
-				if v, ok := e.F.value(mkAtom("eq", tMyIndex, tPrimaryIndex)); ok && v {
-					continue // the primary has its transactions from the start: nothing was parked for their sake
-				}
-				skip := false
-				for _, ini := range c.initialisers() {
-					if e.Events["fn:"+ini.Name] {
-						skip = true // a new epoch was entered
+			for _, root := range roots {
+				r.Sites++
+				bad := ""
+				for _, e := range c.exitsOf(root) {
+					if v, known := e.F.value(at); !known || !v {
+						continue
+					}
+					if e.Killed["ctx.Transactions"] == 0 || e.Events["fn:"+fn.Name] {
+						continue
+					}
+					if v, ok := e.F.value(mkAtom("eq", tMyIndex, tPrimaryIndex)); ok && v {
+						continue // the primary has its transactions from the start: nothing was parked for their sake
+					}
+					// the node's own answer is stored although transactions were missing: the state of known finding D29
+					// (an answer restored from a recovery message), which G-OWN-ANSWER-COMPLETE reports where it arises
+					ownAnswer := false
+					for _, tbl := range []string{"ctx.PreparationPayloads", "ctx.PreCommitPayloads", "ctx.CommitPayloads"} {
+						if v, ok := e.F.value(mkAtom("nn", mkTerm(KIndex, "", fld(tbl, false), tMyIndex), nil)); ok && v {
+							ownAnswer = true
+						}
+					}
+					// (an answer given on this very path does not count: it came after the completion)
+					for _, k := range []string{"PrepareResponseType", "PreCommitType", "CommitType"} {
+						for _, f := range c.senderOf(k) {
+							if e.Events["fn:"+f.Name] {
+								ownAnswer = false
+							}
+						}
+					}
+					if ownAnswer {
+						continue
+					}
+					skip := false
+					for _, ini := range c.initialisers() {
+						if e.Events["fn:"+ini.Name] {
+							skip = true // a new epoch was entered
+						}
+					}
+					// the re-validator is about anti-MEV payloads only
+					if table == "ctx.PreCommitPayloads" {
+						if v, ok := e.F.value(mkAtom("lt", tAMEVHeight, tZero)); ok && v {
+							skip = true
+						}
+						if v, ok := e.F.value(mkAtom("lt", tBlockIndex, tAMEVHeight)); ok && v {
+							skip = true
+						}
+					}
+					if !skip {
+						bad = strings.Join(e.Trail, "; ")
 					}
 				}
-				// the re-validator is about anti-MEV payloads only
-				if table == "ctx.PreCommitPayloads" {
-					if v, ok := e.F.value(mkAtom("lt", tAMEVHeight, tZero)); ok && v {
-						skip = true
-					}
-					if v, ok := e.F.value(mkAtom("lt", tBlockIndex, tAMEVHeight)); ok && v {
-						skip = true
-					}
+				if bad == "" {
+					r.ok(fmt.Sprintf("%s: every path on which the last transaction arrives re-validates %s", root.Name, table))
+				} else {
+					r.fail(root.Name+"/completion-without-revalidation:"+table, c.Prog.Pos(root.Decl), fmt.Sprintf("on path {%s} the last missing transaction is recorded and %s is not called: entries of %s parked while the transaction was missing stay unverified and are counted (a watch-only validator leaves before the check, yet it processes the pre-block like every node)", bad, fn.Name, table))
 				}
-				if !skip {
-					bad = strings.Join(e.Trail, "; ")
-				}
-			}
-			if bad == "" {
-				r.ok(fmt.Sprintf("%s: every path on which the last transaction arrives re-validates %s", root.Name, table))
-			} else {
-				r.fail(root.Name+"/completion-without-revalidation:"+table, c.Prog.Pos(root.Decl), fmt.Sprintf("on path {%s} the last missing transaction is recorded and %s is not called: entries of %s parked while the transaction was missing stay unverified and are counted (a watch-only validator leaves before the check, yet it processes the pre-block like every node)", bad, fn.Name, table))
 			}
 		}
 	}
